@@ -108,10 +108,13 @@ def handleFileCfg (f : Fmt) (cfg : Hdrs) (kv : List (String × String)) (impl : 
   | none => ("-", "fail:driver:bad file hex")
   | some file =>
     let tbl := parseTable (getS kv "tbl")
+    -- preload scans the whole file before anything is delivered: a target outside the class where the model knows
+    -- `url.Parse` anywhere in the pass (not only among the delivered ones) leaves the outcome unpredicted
+    let known (pass : List Ammo × Stop) : Bool := !pre || pass.1.all fun a => (parseURL a.url).isSome
     let mobs : Option String :=
       match f with
-      | .uri => ammoObs (withCfgRes cfg (uriDeliver file k pre))
-      | .uripost => ammoObs (withCfgRes cfg (uripostDeliver true file k pre))
+      | .uri => if known (uriPass file []) then ammoObs (withCfgRes cfg (uriDeliver file k pre)) else none
+      | .uripost => if known (uripostPass true file []) then ammoObs (withCfgRes cfg (uripostDeliver true file k pre)) else none
       | .raw => rawObs tbl (rawDeliver file k pre)      -- the table already carries the `headers` option
     let m := mobs.getD "*"
     match lookup kv "items" with
